@@ -8,6 +8,7 @@ import Bng.Model.DhcpTermMonitor
     new radius|noradius <leaseSecs> [h1|h5]
     disc m<k> c<j>|-          req m<k> a<n> c<j>|-          rel m<k>          dec m<k> a<n>
     tick <secs>               cleanup                       gap <rel|dec|cleanup …>
+    fault qe|qi|nat on|off    the QoS egress / QoS ingress / subscriber_nat kernel map is full (a Put of a new key fails)
     split <rel|dec …> / <rel|dec|cleanup …>                 shutdown
     estgap m<k> a<n> c<j>|- / <rel|dec|cleanup …>           a REQUEST with a termination inside its unlock window
 
@@ -37,7 +38,7 @@ def showSnapshot (s : State) : String :=
   let cs := (sortBy (fun (a b : (Nat × Nat) × Lease) => a.1.1 < b.1.1 || (a.1.1 == b.1.1 && a.1.2 ≤ b.1.2)) idx).map
     fun (k, l) => s!"{showCidKey k}:a{l.ip}:{l.exp}"
   s!"t={s.now} L={joinOr ls} C={joinOr cs} P={joinOr ps} F={joinOr (s.pool.avail.map fun a => s!"a{a}")} U={addrs s.pool.unavailable} " ++
-  s!"Q={addrs s.qos} Qi={addrs s.qos} Qn={s.qos.length} N={addrs s.nat} Nk={addrs s.nat} Nn={s.nat.length} " ++
+  s!"Q={addrs s.qos} Qi={addrs (s.qos.filter fun a => !(s.qosHalf.contains a))} Qn={(s.qos.filter fun a => !(s.qosHalf.contains a)).length} N={addrs s.nat} Nk={addrs s.nat} Nn={s.nat.length} " ++
   s!"Km={joinOr ((sortNat s.kMac).map fun m => s!"m{m}")} Kv={joinOr (s.kVlan.map fun v => s!"v{v.1}.{v.2}")} Kc={cids s.kCid} Kh={cids s.kHash} " ++
   s!"A={joinOr acs}"
 
@@ -94,6 +95,11 @@ def parseOp (toks : List String) : Option Op :=
       if 1 ≤ m && m ≤ 9 && a ≤ 15 then pure (.req m a c) else none
   | ["tick", n] => do let n ← n.toNat?; if n ≤ 1000000 then pure (.tick n) else none
   | ["shutdown"] => some .shutdown
+  | ["fault", w, on] =>
+    if on == "on" || on == "off" then
+      (if w == "qe" then some 0 else if w == "qi" then some 1 else if w == "nat" then some 2 else none).map
+        fun n => .fault n (on == "on")
+    else none
   | "gap" :: rest => (parseTerm rest true).map (.gap [])
   | "split" :: rest => do
       let (a, b) ← splitAt rest
@@ -128,8 +134,9 @@ def parseSnap (impl : String) : Snap :=
         pure (m, a, e, if c == "-" then none else parseTagged 'c' c)
     | _ => none
   let skew :=
-    (if field impl "Q" != field impl "Qi" then ["QoS egress and ingress maps hold different keys"] else []) ++
-    (if (field impl "Qn").toNat? != some (raw "Q").length then ["qos.Manager's table and its kernel map disagree"] else []) ++
+    -- (an install that stops half-way - ingress map full - legitimately leaves an egress key without an ingress key)
+    (if qi.any (fun a => !(q.contains a)) then ["the QoS ingress map holds a key the egress map does not"] else []) ++
+    (if (field impl "Qn").toNat? != some (raw "Qi").length then ["qos.Manager's table and the ingress map disagree"] else []) ++
     (if field impl "N" != field impl "Nk" then ["nat.Manager's table and subscriber_nat hold different keys"] else []) ++
     (if (field impl "Nn").toNat? != some (raw "N").length then ["nat.Manager's allocation count and its table disagree"] else []) ++
     (if (raw "L").length != leases.length then ["unparsable lease"] else []) ++
@@ -239,6 +246,7 @@ def step (st : St) (toks : List String) (impl : String) : St × LineResult :=
         | .disc k => let (m', r) := stepX m (.disc k discCid); some (m', showReply r, .disc k discCid)
         | .req k a c => let (m', r) := stepX m (.op (.req k a c)); some (m', showReply r, .op (.req k a c))
         | .tick n => some ((DhcpTerm.step m (.tick n)).1, "ok", .op (.tick n))
+        | .fault w on => some ((DhcpTerm.step m (.fault w on)).1, "ok", .op (.fault w on))
         | .term t =>
           let t := withOrder order t
           some (t.run m, termReply t, .op (.term t))
